@@ -220,15 +220,18 @@ func runC16(c *Ctx) {
 
 		var mu sync.Mutex
 		var recs []c16Rec
+		recf := func(_ *client.Conn, l *client.Line) {
+			if v := recover(); v != nil {
+				mu.Lock()
+				recs = append(recs, c16Rec{v, l})
+				mu.Unlock()
+			}
+		}
+		// every other custom recovery function is installed through Config() only after all handlers are registered
+		lateRecover := custom && idx%4 >= 2
 		s := NewSession(SessionOpts{Flood: true, Mutate: func(cfg *client.Config) {
-			if custom {
-				cfg.Recover = func(_ *client.Conn, l *client.Line) {
-					if v := recover(); v != nil {
-						mu.Lock()
-						recs = append(recs, c16Rec{v, l})
-						mu.Unlock()
-					}
-				}
+			if custom && !lateRecover {
+				cfg.Recover = recf
 			}
 		}})
 		counts := make([]int64, nFg+nBg)
@@ -290,6 +293,9 @@ func runC16(c *Ctx) {
 				atomic.AddInt64(&parkedStarted, 1)
 				<-release
 			}))
+		}
+		if lateRecover {
+			s.Conn.Config().Recover = recf
 		}
 		mc, err := s.Connect()
 		if err != nil {
